@@ -75,7 +75,7 @@ let log_s l =
 let handle_line line =
   match split_ws line with
   | tr :: cfg :: hx :: _ ->
-    (match batch_cfg cfg, (match tr with "http" -> Some Http | "ws" | "wsb" -> Some Ws | _ -> None) with
+    (match batch_cfg cfg, (match tr with "http" | "httpl" | "httpc" -> Some Http | "ws" | "wsb" -> Some Ws | _ -> None) with
      | Some bc, Some t ->
        let c = { sc_max_response = n_of_string "10485760"; sc_batch = bc } in
        let b = bytes_of_hex (if hx = "-" then "" else hx) in
